@@ -17,7 +17,8 @@ RULE = ("the full product: status in {None,200,201,202,204,301,400,401,403,404,5
         ' ; UTF-16 bodies; the description of a non-200 reply reported as delivered on every path'
         ' ; an injection dict used for two calls'
         ' ; white space before / around a document; classification under debug logging'
-        ' ; reply histories over one client')
+        ' ; reply histories over one client'
+        ' ; a Fault after other Body content')
 ASSUMPTIONS = ["a reply returned by the transport carries no status for suds (counts as 200), as the property states"]
 PARTIAL = []
 TRUSTED = []
